@@ -297,6 +297,16 @@ func cmdCheck(args []string) int {
 				continue
 			}
 			// failed
+			if funcHasContractError(r) {
+				// the contract no longer binds to the code of this function (e.g. a
+				// local named in a loop invariant was renamed): its undischarged
+				// obligations are inconclusive, not violations
+				fmt.Printf("BROKEN property=%s obligation=%s: undecided because the contract of %s does not evaluate against the current code\n", id, o.Name, r.Func)
+				broken++
+				entry["status"] = "inconclusive"
+				perObl = append(perObl, entry)
+				continue
+			}
 			if kf := matchKnown(known, id, o.Name, ""); kf != nil && kf.re == nil {
 				fmt.Printf("KNOWN-FINDING: property=%s %s (obligation %s)\n", id, kf.desc, o.Name)
 				entry["status"] = "known-finding"
@@ -457,6 +467,15 @@ func cmdCheck(args []string) int {
 		return 2
 	}
 	return 0
+}
+
+func funcHasContractError(r *FuncReport) bool {
+	for _, o := range r.Obligations {
+		if o.Status == "error" {
+			return true
+		}
+	}
+	return false
 }
 
 func arithOf(reps []*FuncReport) map[string]string {
